@@ -14,6 +14,7 @@ import (
 	"github.com/regen-network/regen-ledger/x/data/v3"
 	basetypes "github.com/regen-network/regen-ledger/x/ecocredit/v3/base/types/v1"
 	baskettypes "github.com/regen-network/regen-ledger/x/ecocredit/v3/basket/types/v1"
+	markettypes "github.com/regen-network/regen-ledger/x/ecocredit/v3/marketplace/types/v1"
 
 	"verif/harness/chain"
 	"verif/harness/explore"
@@ -306,6 +307,15 @@ func Queries() Spec {
 	}
 	add(sendEverything(B, C), sendEverything(C, B), sendEverything(D, B))
 	add(fix(Msg("gov:add-class-creator(B)", &basetypes.MsgAddClassCreator{Authority: G.String(), Creator: B.String()})))
+	// parameters read by the single-entity parameter queries and the deprecated aggregate Params query
+	add(
+		fix(Msg("gov:class-fee=none", &basetypes.MsgUpdateClassFee{Authority: G.String()})),
+		fix(Msg("gov:class-fee=7uregen", &basetypes.MsgUpdateClassFee{Authority: G.String(), Fee: pcoin("uregen", 7)})),
+		fix(Msg("gov:basket-fee=none", &baskettypes.MsgUpdateBasketFee{Authority: G.String()})),
+		fix(Msg("gov:allowlist-on", &basetypes.MsgSetClassCreatorAllowlist{Authority: G.String(), Enabled: true})),
+		fix(Msg("gov:bridge-chain=ethereum", &basetypes.MsgAddAllowedBridgeChain{Authority: G.String(), ChainName: "ethereum"})),
+		fix(Msg("gov:remove-allowed-denom(uregen)", &markettypes.MsgRemoveAllowedDenom{Authority: G.String(), Denom: "uregen"})),
+	)
 
 	// --- marketplace: two sellers, two batches, two ask denoms, one removal
 	sell := func(s sdk.AccAddress, k int, ask sdk.Coin) E {
